@@ -608,7 +608,7 @@ func cmdCheck(args []string) int {
 		if vc.class == "segmentation_dependent" {
 			// a property of a pair of runs: nothing to shrink within one run; the replay
 			// re-runs the seed under every variant and compares the digests again
-			rf := &sim.ReplayFile{Property: vc.prop, World: pd.World, Tier: *tier, Seed: vc.seed, Class: vc.class, Detail: vc.detail, Note: "replay = run this seed under all transport variants and compare digests"}
+			rf := &sim.ReplayFile{Property: vc.prop, Arm: pd.ID, World: pd.World, Tier: *tier, Seed: vc.seed, Class: vc.class, Detail: vc.detail, Note: "replay = run this seed under all transport variants and compare digests"}
 			dir := filepath.Join(root, "replays", vc.prop)
 			os.MkdirAll(dir, 0o755)
 			path := filepath.Join(dir, fmt.Sprintf("%s-%d.json", sanitize(vc.class), vc.seed))
@@ -622,7 +622,7 @@ func cmdCheck(args []string) int {
 		// confirm: replay the minimised vector twice in fresh processes
 		r1 := runWorker(Spec{Prop: pd.ID, World: pd.World, Seed: vc.seed, Choices: min, Replay: true, LogKeep: 3000})
 		r2 := runWorker(Spec{Prop: pd.ID, World: pd.World, Seed: vc.seed, Choices: min, Replay: true, LogKeep: 3000})
-		rf := &sim.ReplayFile{Property: vc.prop, World: pd.World, Tier: *tier, Seed: vc.seed, Class: vc.class, Detail: vc.detail}
+		rf := &sim.ReplayFile{Property: vc.prop, Arm: pd.ID, World: pd.World, Tier: *tier, Seed: vc.seed, Class: vc.class, Detail: vc.detail}
 		repro := hasViolation(r1, vc.prop, vc.class) && hasViolation(r2, vc.prop, vc.class)
 		if repro {
 			rf.Choices, rf.Minimised, rf.EventHash, rf.Events = min, true, r1.EventHash, r1.Log
@@ -786,7 +786,11 @@ func cmdReplay(args []string) int {
 		return 2
 	}
 	defer os.RemoveAll(scratch())
-	pd := props[rf.Property]
+	arm := rf.Arm
+	if arm == "" {
+		arm = rf.Property
+	}
+	pd := props[arm]
 	world := rf.World
 	if world == "" {
 		world = pd.World
@@ -795,7 +799,7 @@ func cmdReplay(args []string) int {
 		var d0 string
 		bad := false
 		for v := 0; v < pd.Variants; v++ {
-			rv := runWorker(Spec{Prop: rf.Property, World: world, Seed: rf.Seed, Variant: v})
+			rv := runWorker(Spec{Prop: arm, World: world, Seed: rf.Seed, Variant: v})
 			fmt.Printf("variant %d: digest=%s infra=%q violations=%d\n", v, rv.Digest, rv.Infra, len(rv.Violations))
 			if v == 0 {
 				d0 = rv.Digest
@@ -810,7 +814,7 @@ func cmdReplay(args []string) int {
 		fmt.Println("replay did not reproduce the violation")
 		return 0
 	}
-	r := runWorker(Spec{Prop: rf.Property, World: world, Seed: rf.Seed, Choices: rf.Choices, Replay: true, LogKeep: 5000})
+	r := runWorker(Spec{Prop: arm, World: world, Seed: rf.Seed, Choices: rf.Choices, Replay: true, LogKeep: 5000})
 	for _, l := range r.Log {
 		fmt.Println(l)
 	}
